@@ -174,3 +174,4 @@ def run(ctx) -> None:
     parse_rule(ctx)
     match_rule(ctx)
     tables(ctx)
+    shared.argname_scope(ctx, ('forml.io.layout', 'forml.application._descriptor'), floor=2)
